@@ -1115,23 +1115,23 @@ func resetSiteCopies(p *Program, a *anchors, byMethod map[string][]string) bool 
 // stateClasses: every group of state written by code reachable from the
 // interpreter, with its class and the rule that checks the class's obligation.
 var stateClasses = map[string]string{
-	"field environment.Environment.global":    "persistent by design: script variables (C07 names them as the evaluator's state)",
-	"map environment.Environment.global":      "persistent by design: script variables",
-	"field vm.VM.fields":                      "reset at interpreter entry (R-RUNRESET)",
-	"map vm.VM.fields":                        "reset at interpreter entry (R-RUNRESET)",
-	"field stack.Stack.entries":               "emptied at interpreter entry (R-RUNRESET)",
-	"field vm.VM.bytecode":                    "swapped for a call, restored by defer (R-FRAMERESTORE)",
-	"field vm.VM.stack":                       "swapped for a call, restored by defer (R-FRAMERESTORE)",
-	"field environment.Environment.local":     "scope stack, restored by depth on every exit (R-SCOPERESTORE)",
-	"map environment.Environment.local[]":     "variables of an open scope; the scope stack is restored by depth (R-SCOPERESTORE)",
-	"elem environment.Environment.local":      "variables of an open scope; the scope stack is restored by depth (R-SCOPERESTORE)",
-	"field object.Integer.Value":              "only on private copies (R-NOMUT)",
-	"field object.Float.Value":                "only on private copies (R-NOMUT)",
-	"field object.Array.offset":               "iteration cursor of a private copy (R-NOMUT)",
-	"field object.Hash.offset":                "iteration cursor of a private copy (R-NOMUT)",
-	"field object.String.offset":              "iteration cursor of a private copy (R-NOMUT)",
-	"map global environment.regCache":         "idempotent cache: the value is determined by the key; guarded by a mutex (R-GLOBALS)",
-	"field environment.regCacheLock (sync)":   "the cache's mutex",
+	"field environment.Environment.global":  "persistent by design: script variables (C07 names them as the evaluator's state)",
+	"map environment.Environment.global":    "persistent by design: script variables",
+	"field vm.VM.fields":                    "reset at interpreter entry (R-RUNRESET)",
+	"map vm.VM.fields":                      "reset at interpreter entry (R-RUNRESET)",
+	"field stack.Stack.entries":             "emptied at interpreter entry (R-RUNRESET)",
+	"field vm.VM.bytecode":                  "swapped for a call, restored by defer (R-FRAMERESTORE)",
+	"field vm.VM.stack":                     "swapped for a call, restored by defer (R-FRAMERESTORE)",
+	"field environment.Environment.local":   "scope stack, restored by depth on every exit (R-SCOPERESTORE)",
+	"map environment.Environment.local[]":   "variables of an open scope; the scope stack is restored by depth (R-SCOPERESTORE)",
+	"elem environment.Environment.local":    "variables of an open scope; the scope stack is restored by depth (R-SCOPERESTORE)",
+	"field object.Integer.Value":            "only on private copies (R-NOMUT)",
+	"field object.Float.Value":              "only on private copies (R-NOMUT)",
+	"field object.Array.offset":             "iteration cursor of a private copy (R-NOMUT)",
+	"field object.Hash.offset":              "iteration cursor of a private copy (R-NOMUT)",
+	"field object.String.offset":            "iteration cursor of a private copy (R-NOMUT)",
+	"map global environment.regCache":       "idempotent cache: the value is determined by the key; guarded by a mutex (R-GLOBALS)",
+	"field environment.regCacheLock (sync)": "the cache's mutex",
 }
 
 func ruleStateCensus(p *Program, r *Reporter) {
